@@ -332,6 +332,12 @@ class SBool:
     def __rsub__(self, o):
         return o - self._r()
 
+    def __pow__(self, n): return self._r() ** n
+    def __neg__(self): return -self._r()
+    def __abs__(self): return self._r()
+    def __truediv__(self, o): return self._r() / o
+    def __rtruediv__(self, o): return o / self._r()
+
     def __lt__(self, o): return self._r() < o
     def __le__(self, o): return self._r() <= o
     def __gt__(self, o): return self._r() > o
